@@ -798,10 +798,9 @@ func evaluateNodeValueWithNull(node *ExprNode, data map[string]any) (any, bool, 
 
 // compareValuesWithNullForEquality compares two values for equality (supports NULL comparison)
 func compareValuesWithNullForEquality(left any, leftIsNull bool, right any, rightIsNull bool) bool {
-	if leftIsNull && rightIsNull {
-		return true
-	}
-	if leftIsNull || rightIsNull {
+	// CASE x WHEN y compares with '=': a NULL on either side is never a match
+	// (use CASE WHEN x IS NULL for that), exactly like WHEN x = y in a searched CASE.
+	if leftIsNull || rightIsNull || left == nil || right == nil {
 		return false
 	}
 	return compareValuesForEquality(left, right)
